@@ -834,7 +834,19 @@ impl<'a, 'b> Gen<'a, 'b> {
             PK::CharClass => {
                 let n = 1 + self.src.weighted(&[4, 5, 3, 1]);
                 let mut parts = vec![];
+                // "Latin-1 class": only characters up to U+00FF (every one of them can be spelled \xNN), no references
+                let latin1 = self.prof.p_unicode > 0 && self.src.chance(36);
                 for _ in 0..n {
+                    if latin1 {
+                        let pool: &[char] = &['\u{80}', '\u{a0}', '\u{c0}', '\u{c3}', '\u{df}', '\u{e9}', '\u{f4}', '\u{ff}', 'a', 'z', '0', '_'];
+                        if self.src.chance(128) {
+                            parts.push(CharPart::Char(*self.src.choose(pool)));
+                        } else {
+                            let (a, b) = (*self.src.choose(pool), *self.src.choose(pool));
+                            parts.push(if a <= b { CharPart::Range(a, b) } else { CharPart::Range(b, a) });
+                        }
+                        continue;
+                    }
                     match self.src.weighted(&[5, 5, 2]) {
                         0 => parts.push(CharPart::Char(self.lit_char())),
                         1 => {
